@@ -36,6 +36,13 @@ def programs(tier, b, seed):
     progs += gen.binop_programs("b%d/bool" % b, ["and", "or", "xor", "add", "sub", "mul", "pow"] + gen.BIN_CMP, pairs(bv),
                                 [("SB", "SB"), ("SB", "cb"), ("cb", "SB"), ("SB", "c"), ("c", "SB"), ("SB", "S"), ("S", "SB"), ("UB", "SB")], ["plain", "g1"])
     progs += gen.binop_programs("b%d/bool" % b, ["pow"], [(x, e) for x in bv for e in (0, 1, 2, 3)], [("SB", "c"), ("SB", "S")], ["plain"])
+    # a secret boolean next to an integer OUTSIDE {0,1} (constant or secret, either side): comparisons and arithmetic must agree with
+    # Python on the numbers (True == 1) or raise -- never coerce the integer by truthiness
+    nb = [-1, 2, 3]
+    progs += gen.binop_programs("b%d/boolint" % b, ["add", "sub", "mul"] + gen.BIN_CMP, [(x, y) for x in bv for y in nb],
+                                [("SB", "c"), ("SB", "S"), ("SB", "U")], ["plain", "g1"])
+    progs += gen.binop_programs("b%d/boolint" % b, ["add", "sub", "mul"] + gen.BIN_CMP, [(y, x) for x in bv for y in nb],
+                                [("c", "SB"), ("S", "SB"), ("U", "SB")], ["plain", "g1"])
     progs += gen.unop_programs("b%d/bool" % b, ["invert", "neg", "pos", "abs"], bv, ["plain", "g1"], kinds=("SB",))
     # arithmetic AFTER a guarded region was left through an exception that the caller caught: everything must still agree
     # with Python (a guard, an ignore flag or a rescaled constant leaking out of the region changes later values silently)
